@@ -46,13 +46,13 @@ func TestVerif_C06(t *testing.T) { vlib.Both(t, vfC06Spec) }
 // ---- concurrent bursts -----------------------------------------------------------------------------
 
 type vfC06Burst struct {
-	NKs      int   `json:"nks"`
-	Pre      []int `json:"pre"`     // external keys issued before the burst, per keystore
-	Workers  []int `json:"workers"` // per goroutine: number of GenerateNewPublicKey calls
-	NextEvery int  `json:"nextEvery"` // every n-th call of odd workers is NextAddresses(external,1) instead
-	Unlocked bool  `json:"unlocked"`
-	Procs    int   `json:"procs"`
-	Restart  bool  `json:"restart"`
+	NKs       int   `json:"nks"`
+	Pre       []int `json:"pre"`       // external keys issued before the burst, per keystore
+	Workers   []int `json:"workers"`   // per goroutine: number of GenerateNewPublicKey calls
+	NextEvery int   `json:"nextEvery"` // every n-th call of odd workers is NextAddresses(external,1) instead
+	Unlocked  bool  `json:"unlocked"`
+	Procs     int   `json:"procs"`
+	Restart   bool  `json:"restart"`
 }
 
 func vfGenC06Burst(t *rapid.T) vfC06Burst {
